@@ -104,7 +104,7 @@ def row_bounds(draw, m, kinds=("eq0", "eqnz", "lower", "upper", "ranged"), cente
 
 
 # storage style: canonical (None), a fixed pattern with explicitly stored zeros, or duplicate entries
-STYLE = st.sampled_from([None, None, None, None, "zeros", "dup"])
+STYLE = st.sampled_from([None, None, None, None, "zeros", "dup", "int"])
 FMT = st.fixed_dictionaries(
     {"jac": st.sampled_from(["coo", "csr", "csc"]), "hess": st.sampled_from(["coo", "csr", "csc"]), "jac_style": STYLE, "hess_style": STYLE}
 )
@@ -352,9 +352,10 @@ def build_params(pdict, scaling=None, **extra):
         kind = scaling["kind"]
         if kind == "custom":
             kw["scaling_type"] = ScalingType.Custom
+            wd = np.dtype(scaling.get("wdtype", "int64"))
             kw["scaling"] = Scaling(
-                np.array(scaling["vw"], dtype=int),
-                np.array(scaling["cw"], dtype=int),
+                np.array(scaling["vw"], dtype=wd),
+                np.array(scaling["cw"], dtype=wd),
                 int(scaling["ow"]),
             )
         else:
